@@ -310,3 +310,60 @@ Proof.
   cbv zeta. split; [intros g blk H; rewrite nth_error_app1; [exact H|apply nth_error_Some; rewrite H; discriminate]|].
   repeat (split; [vm_compute; reflexivity|]). vm_compute; reflexivity.
 Qed.
+
+(* ---------------------------------------------------------------------------------------------
+   uc_shape ITSELF IS THE C TEXT TOO (coq/TrUcShape.v; c2clite.py turns the `static char out[16]` into the global
+   block G_uc_shape__out).  For every string without NUL in which every lead byte has its continuation bytes
+   before the terminator (code_fits: otherwise uc_code reads past the end of the string) and whose character at
+   s = beg + off is below 0x110000: the translated uc_shape returns NULL exactly when the model says ShNone;
+   otherwise it returns the static buffer, which then holds the bytes of the model's answer (as chars) and the
+   terminator, and no other cell of the memory has changed.  The macro UC_R2L is the generated truth table
+   r2l_ranges on 0 .. 0x10ffff (C18_r2l_macro; above that the macro still looks at the low 16 bits only while the
+   table says "no": uc_code returns such values only on malformed input).  The model never runs out of fuel. *)
+From NV Require Import TrUcShape.
+
+Theorem C18_r2l_macro : forall c, (0 <= c < 1114112)%Z ->
+  ((Z.land c 65280 =? 1536) || (Z.land c 65532 =? 8204) || (Z.land c 65280 =? 64256) ||
+   (Z.land c 65280 =? 64512) || (Z.land c 65280 =? 65024))%Z = uc_r2l c.
+Proof. exact r2l_macro_model. Qed.
+Print Assumptions C18_r2l_macro.
+
+Theorem C18_tr_uc_shape : forall m b s off outblk d fuel,
+  str_at m b s -> nonul s ->
+  (forall o, (o <= length s)%nat -> (o + uc_len_b (nthb s o) - 1 <= length s)%nat) ->
+  (off <= length s)%nat -> nth_error m G_achars = Some gb_achars ->
+  nth_error m G_uc_shape__out = Some outblk -> (5 <= length outblk)%nat ->
+  (Z.of_N (uc_code (skipn off s)) < 1114112)%Z ->
+  (length s < fuel)%nat -> (length achars < fuel)%nat -> (4 <= fuel)%nat ->
+  match uc_shape s off with
+  | ShNone => callf cprog fuel (S (S (S (S d)))) F_uc_shape [VPtr b 0%Z; VPtr b (Z.of_nat off)] m = Ok (VInt 0%Z, m)
+  | ShOut bs => callf cprog fuel (S (S (S (S d)))) F_uc_shape [VPtr b 0%Z; VPtr b (Z.of_nat off)] m
+                = Ok (VPtr G_uc_shape__out 0%Z,
+                      CLiteProps.upd m G_uc_shape__out
+                        (CLiteProps.put_cells outblk 0 (map (fun x => VInt (wrap I8 (Z.of_N x))) bs ++ [VInt 0%Z])))
+  | ShFuel => True
+  end.
+Proof. exact tr_uc_shape. Qed.
+Print Assumptions C18_tr_uc_shape.
+
+Theorem C18_uc_shape_total : forall s off, nonul s -> (off <= length s)%nat -> uc_shape s off <> ShFuel.
+Proof. exact uc_shape_total. Qed.
+Print Assumptions C18_uc_shape_total.
+
+(* the translated uc_shape RUNS: in lam beh meem (d9 84 d8 a8 d9 85) the beh at offset 2 becomes ef ba 92 (U+FE92) in
+   the static buffer; at the terminator (offset 6) the answer is NULL and nothing is written *)
+Example C18_tr_uc_shape_nonvacuous :
+  let s := [217; 132; 216; 168; 217; 133]%N in
+  let m := cglobals ++ [cstr_block (zb s)] in
+  let b := length cglobals in
+  str_at m b s /\ nonul s /\
+  (exists m', callf cprog 100 4 F_uc_shape [VPtr b 0%Z; VPtr b 2%Z] m = Ok (VPtr G_uc_shape__out 0%Z, m') /\
+     nth_error m' G_uc_shape__out = Some ([VInt (-17); VInt (-70); VInt (-110); VInt 0] ++ repeat (VInt 0) 12)%Z) /\
+  uc_shape s 2 = ShOut [239; 186; 146]%N /\
+  callf cprog 100 4 F_uc_shape [VPtr b 0%Z; VPtr b 6%Z] m = Ok (VInt 0%Z, m) /\
+  uc_shape s 6 = ShNone.
+Proof.
+  cbv zeta. split; [reflexivity|]. split; [repeat constructor|].
+  split; [eexists; split; [vm_compute; reflexivity|vm_compute; reflexivity]|].
+  repeat (split; [vm_compute; reflexivity|]). vm_compute; reflexivity.
+Qed.
